@@ -183,6 +183,12 @@ func (s *Spec) TestSource() string {
 	for _, id := range sortedIDs(s.Enums) {
 		fmt.Fprintf(&b, "\t\t\"SE%d\": %d,\n", id, s.Enums[id])
 	}
+	b.WriteString("\t},\n\tWrapOffTypes: map[string]bool{\n")
+	for _, id := range sortedIDs(s.Structs) {
+		if s.MethodWrapOff[fmt.Sprintf("Conv%d", id)] {
+			fmt.Fprintf(&b, "\t\t\"S%d\": true,\n", id)
+		}
+	}
 	b.WriteString("\t},\n\tCtor: map[string]string{\n")
 	for _, id := range sortedIDs(s.Structs) {
 		if s.Structs[id].Ctor {
@@ -209,7 +215,7 @@ func (s *Spec) TestSource() string {
 			fn, tw = "w."+m.Name, "w.Twin"+m.Name
 		}
 		if hasTwin {
-			fmt.Fprintf(&b, "\t\t{Name: %q, Fn: %s, Twin: %s},\n", m.Name, fn, tw)
+			fmt.Fprintf(&b, "\t\t{Name: %q, Fn: %s, Twin: %s, WrapOff: %v},\n", m.Name, fn, tw, s.MethodWrapOff[m.Name])
 		} else {
 			fmt.Fprintf(&b, "\t\t{Name: %q, Fn: %s, SkipCopy: %v},\n", m.Name, fn, s.SkipInvolved(m))
 		}
